@@ -1,4 +1,5 @@
 import InToto.Driver.Util
+import InToto.Model.Sign
 import InToto.Model.Metadata
 import InToto.Model.Validate
 open Lean
@@ -76,7 +77,16 @@ def mdInfo (m : Md) : List (String × Json) :=
   let valid : Json := match m with
     | .legacy pp s => Json.bool (InToto.Validate.metablockOK pp s)
     | _ => Json.null
-  [("valid", valid), ("unsigned_mb_reload", Json.str unsignedMb), ("unsigned_env_reload", Json.str unsignedEnv), ("res", "ok"), ("kind", kind), ("wrapper", wrapper), ("canon", optStr (canonPayload p)), ("sigs", sigs),
+  -- an envelope holding this payload is offered content that cannot be represented (C11: "refused
+  -- with an error rather than signed approximately" — and the envelope stays as it was)
+  let refusal : Json := match p, setPayload p with
+    | .link _, .ok env =>
+      (match (InToto.Sign.trySetFrac { md := env, valid := [], n := 0 }).2 with
+       | "err:same" => Json.str "refused-unchanged"
+       | "ok:changed" => Json.str "accepted"
+       | other => Json.str other)
+    | _, _ => Json.null
+  [("refusal", refusal), ("valid", valid), ("unsigned_mb_reload", Json.str unsignedMb), ("unsigned_env_reload", Json.str unsignedEnv), ("res", "ok"), ("kind", kind), ("wrapper", wrapper), ("canon", optStr (canonPayload p)), ("sigs", sigs),
    ("roundtrip", rt), ("dsse_payload", dssePayload), ("dsse_reload", dsseReload)]
 
 def handleMeta (op : String) (a : Json) : Option Json :=
